@@ -55,20 +55,28 @@ func selectByFile(pkgs []*packages.Package, file string) *packages.Package {
 	return nil
 }
 
+// commonPrefix returns the deepest directory containing all the
+// given (absolute) directories, comparing whole path elements.
 func commonPrefix(paths []string) string {
-	index := 0
-	first := paths[0]
-	for ; index < len(first); index++ {
-		c := first[index]
-		for _, other := range paths {
-			if index >= len(other) || other[index] != c {
-				// no more prefix
-				return first[:index]
+	first := strings.Split(filepath.Clean(paths[0]), string(filepath.Separator))
+	common := len(first)
+	for _, other := range paths[1:] {
+		chunks := strings.Split(filepath.Clean(other), string(filepath.Separator))
+		if len(chunks) < common {
+			common = len(chunks)
+		}
+		for i := 0; i < common; i++ {
+			if chunks[i] != first[i] {
+				common = i
+				break
 			}
 		}
 	}
-
-	return first
+	out := strings.Join(first[:common], string(filepath.Separator))
+	if out == "" && filepath.IsAbs(paths[0]) {
+		return string(filepath.Separator)
+	}
+	return out
 }
 
 // LoadSources returns for each source file, the `*packages.Package` containing it.
